@@ -115,7 +115,7 @@ type c19Pod struct {
 	echoed   int
 	req      v1.ResourceList
 	nonPre   bool
-	wasAsg   bool // counted as used by the live manager when it terminated
+	termTail bool // terminated after the restarted manager had seen it bound (watch event after the snapshot)
 }
 
 func (p *c19Pod) latest() *v1.Pod {
@@ -179,7 +179,7 @@ func c19Diff(a, b v1.ResourceList) (string, string, string, int) {
 func TestVerifC19QuotaRestart(t *testing.T) {
 	defer c19PinGates()()
 	kit.Run(t, kit.Config{Property: "C19", Unit: "quota-restart", Quick: 3000, Thorough: 60000,
-		Rule: "a quota tree of 3-6 groups (0-2 parents, some declaring an extended resource) in a real GroupQuotaManager and 20-70 operations over 4-12 pods: create (OnPodAdd), reserve (ReservePod), bind, unreserve, touch, terminate, delete, informer echo (OnPodUpdate/OnPodDelete) as the elasticquota plugin issues them; cut after a bind; reserved-but-unbound pods unreserved; a fresh manager gets the quotas, then every surviving pod through OnPodAdd in random order with 20% duplicate adds and 20% no-op updates, then watch events after the snapshot; used / non-preemptible used per group compared with the live manager's and with the sum over the surviving bound pods; distinct = (#groups, depth, pod state mix class, non-preemptible?, ext?, event kind); non-trivial = at least two bound survivors in one group, a pending survivor and a terminated or deleted pod"},
+		Rule: "a quota tree of 3-6 groups (0-2 parents, some declaring an extended resource) in a real GroupQuotaManager and 20-70 operations over 4-12 pods: create (OnPodAdd), reserve (ReservePod), bind, unreserve, touch, terminate, delete, informer echo (OnPodUpdate/OnPodDelete) as the elasticquota plugin issues them; cut after a bind; reserved-but-unbound pods unreserved; a fresh manager gets the quotas, then every surviving pod through OnPodAdd in random order with 20% duplicate adds and 20% no-op updates, then watch events after the snapshot; used / non-preemptible used per group compared with the live manager's and with the sum over the surviving bound pods; distinct = (#groups, depth, pod state mix class, non-preemptible?, ext?, event kind); non-trivial = at least two bound survivors in one group and a terminated or deleted pod"},
 		func(c *kit.Case) {
 			r := c.R
 			newMgr := func() *GroupQuotaManager {
@@ -293,10 +293,6 @@ func TestVerifC19QuotaRestart(t *testing.T) {
 				c.Op("live informer: update %s version %d -> %d (OnPodUpdate)", p.name, p.echoed, upto)
 				p.echoed = upto
 				c.Count("live_echo_updates", 1)
-			}
-			liveAssigned := func(p *c19Pod) bool {
-				qi := live.GetQuotaInfoByName(p.group)
-				return qi != nil && qi.CheckPodIsAssigned(p.latest())
 			}
 			terminate := func(p *c19Pod) {
 				next(p, func(nv *v1.Pod) { nv.Status.Phase = kit.Pick(r, []v1.PodPhase{v1.PodSucceeded, v1.PodFailed}) })
@@ -485,6 +481,7 @@ func TestVerifC19QuotaRestart(t *testing.T) {
 					if p := pick(func(p *c19Pod) bool { return p.state == c19Bound }); p != nil {
 						prev := p.latest()
 						terminate(p)
+						p.termTail = true
 						echo(p, len(p.versions))
 						return &event{kind: "update", old: prev, new: p.latest(), pod: p}
 					}
@@ -497,6 +494,7 @@ func TestVerifC19QuotaRestart(t *testing.T) {
 				}
 				return nil
 			}
+			lingerSig, lingerMsg := "", ""
 			compare := func(where string) {
 				names := []string{extension.DefaultQuotaName, extension.RootQuotaName}
 				for _, g := range groups {
@@ -510,8 +508,14 @@ func TestVerifC19QuotaRestart(t *testing.T) {
 					if name == extension.RootQuotaName {
 						continue // the root keeps no used of its own in this tree
 					}
-					// expected from the surviving objects: bound, not terminated pods of the subtree
-					exp, expNP, lingering := v1.ResourceList{}, v1.ResourceList{}, v1.ResourceList{}
+					// Expected from the surviving objects: the bound, not terminated pods of the subtree (strict). Whether a
+					// pod that terminated (phase Succeeded/Failed) while a manager held it as assigned stays counted until
+					// it is deleted is not fixed by the property; both readings are accepted for each manager on its own
+					// ("tail": pods that terminated after the restarted manager had seen them bound; "lingering": pods that
+					// terminated before the snapshot, which only the live manager ever saw bound). What IS the property:
+					// the restarted manager accounts at least the strict amount, and the same as the live one.
+					all := map[v1.ResourceName]bool{v1.ResourceCPU: true, v1.ResourceMemory: true, c19Ext: true}
+					exp, expNP, tailT, tailNP, lingering, lingeringNP := v1.ResourceList{}, v1.ResourceList{}, v1.ResourceList{}, v1.ResourceList{}, v1.ResourceList{}, v1.ResourceList{}
 					for _, p := range pods {
 						in := false
 						for _, gname := range chain(p.group) {
@@ -530,38 +534,60 @@ func TestVerifC19QuotaRestart(t *testing.T) {
 								delete(masked, n)
 							}
 						}
-						all := map[v1.ResourceName]bool{v1.ResourceCPU: true, v1.ResourceMemory: true, c19Ext: true}
-						switch p.state {
-						case c19Bound:
-							c19Add(exp, masked, all)
-							if p.nonPre {
-								c19Add(expNP, masked, all)
-							}
-						case c19Terminated:
-							c19Add(lingering, masked, all)
+						var dst, dstNP v1.ResourceList
+						switch {
+						case p.state == c19Bound:
+							dst, dstNP = exp, expNP
+						case p.state == c19Terminated && p.termTail:
+							dst, dstNP = tailT, tailNP
+						case p.state == c19Terminated:
+							dst, dstNP = lingering, lingeringNP
+						default:
+							continue
+						}
+						c19Add(dst, masked, all)
+						if p.nonPre {
+							c19Add(dstNP, masked, all)
 						}
 					}
+					plus := func(a, b v1.ResourceList) v1.ResourceList {
+						out := v1.ResourceList{}
+						c19Add(out, a, all)
+						c19Add(out, b, all)
+						return out
+					}
 					usedL, usedR := qL.GetUsed(), qR.GetUsed()
+					npL, npR := qL.GetNonPreemptibleUsed(), qR.GetNonPreemptibleUsed()
 					if n, a, b, s := c19Diff(exp, usedR); n != "" {
 						if s < 0 {
 							c.Fail("C19/quota/used-free-after-restart", "%s: group %s %s: the surviving bound pods request %s, the restarted manager accounts only %s as used", where, name, n, a, b)
 						}
-						c.Fail("C19/quota/used-by-nobody-after-restart", "%s: group %s %s: the surviving bound pods request %s, the restarted manager accounts %s as used", where, name, n, a, b)
-					}
-					if n, a, b, _ := c19Diff(expNP, qR.GetNonPreemptibleUsed()); n != "" {
-						c.Fail("C19/quota/non-preemptible-used-after-restart", "%s: group %s %s: the surviving bound non-preemptible pods request %s, the restarted manager accounts %s", where, name, n, a, b)
-					}
-					if n, a, b, _ := c19Diff(usedL, usedR); n != "" {
-						// is the difference exactly the terminated pods that still exist?
-						withLingering := usedR.DeepCopy()
-						c19Add(withLingering, lingering, map[v1.ResourceName]bool{v1.ResourceCPU: true, v1.ResourceMemory: true, c19Ext: true})
-						if n2, _, _, _ := c19Diff(usedL, withLingering); n2 == "" {
-							c.Fail("C19/quota/used/terminated-pods-counted-by-live-only", "%s: group %s %s: used is %s in the live manager and %s in the restarted one; the difference is the requests of pods that terminated (phase Succeeded/Failed) after they were assigned and still exist: the live manager keeps counting them until they are deleted, OnPodAdd in the restarted manager does not", where, name, n, a, b)
+						if n2, _, _, _ := c19Diff(plus(exp, tailT), usedR); n2 != "" {
+							c.Fail("C19/quota/used-by-nobody-after-restart", "%s: group %s %s: the surviving bound pods request %s (pods that terminated after the snapshot: %s), the restarted manager accounts %s as used", where, name, n, a, c19RL(tailT), b)
 						}
-						c.Fail("C19/quota/used", "%s: group %s %s: used is %s in the live manager and %s in the restarted one", where, name, n, a, b)
+						c.Count("restarted_manager_counts_pods_that_terminated_after_the_snapshot", 1)
 					}
-					if n, _, _, _ := c19Diff(qL.GetNonPreemptibleUsed(), qR.GetNonPreemptibleUsed()); n != "" {
-						c.Fail("C19/quota/non-preemptible-used", "%s: group %s: non-preemptible used is %s in the live manager and %s in the restarted one", where, name, c19RL(qL.GetNonPreemptibleUsed()), c19RL(qR.GetNonPreemptibleUsed()))
+					if n, a, b, _ := c19Diff(expNP, npR); n != "" {
+						if n2, _, _, _ := c19Diff(plus(expNP, tailNP), npR); n2 != "" {
+							c.Fail("C19/quota/non-preemptible-used-after-restart", "%s: group %s %s: the surviving bound non-preemptible pods request %s, the restarted manager accounts %s", where, name, n, a, b)
+						}
+					}
+					// live vs restarted
+					if n, a, b, _ := c19Diff(usedL, usedR); n != "" {
+						if n2, _, _, _ := c19Diff(usedL, plus(usedR, lingering)); n2 != "" {
+							c.Fail("C19/quota/used", "%s: group %s %s: used is %s in the live manager and %s in the restarted one (terminated pods that still exist account for %s)", where, name, n, a, b, c19RL(lingering))
+						}
+						// the difference is exactly the lingering terminated pods: reported at the end of the case so that it
+						// cannot hide any other difference
+						if lingerSig == "" {
+							lingerSig = "C19/quota/used/terminated-pods-counted-by-live-only"
+							lingerMsg = fmt.Sprintf("%s: group %s %s: used is %s in the live manager and %s in the restarted one; the difference is exactly the requests of pods that terminated (phase Succeeded/Failed) after they were assigned and still exist: the live manager keeps counting them until they are deleted (OnPodUpdate), OnPodAdd in the restarted manager never counts them", where, name, n, a, b)
+						}
+					}
+					if n, a, b, _ := c19Diff(npL, npR); n != "" {
+						if n2, _, _, _ := c19Diff(npL, plus(npR, lingeringNP)); n2 != "" {
+							c.Fail("C19/quota/non-preemptible-used", "%s: group %s %s: non-preemptible used is %s in the live manager and %s in the restarted one", where, name, n, a, b)
+						}
 					}
 					if n, _, _, _ := c19Diff(qL.GetRequest(), qR.GetRequest()); n != "" {
 						c.Count("request_differs_not_asserted", 1)
@@ -618,16 +644,19 @@ func TestVerifC19QuotaRestart(t *testing.T) {
 				}
 			}
 			c.Seen(len(groups), depth, mix)
-			if two && pend && gone {
+			if two && gone {
 				c.NonTrivial()
 			}
-			_ = liveAssigned
 			if c.K < 2 {
 				ops := c.Ops()
 				if len(ops) > 14 {
 					ops = ops[:14]
 				}
 				c.Sample(ops)
+			}
+			if lingerSig != "" {
+				c.Count("cases_with_terminated_pods_counted_by_live_only", 1)
+				c.Fail(lingerSig, "%s", lingerMsg)
 			}
 		})
 }
